@@ -54,7 +54,7 @@ theorem blank_optBlock (kw t : Str) (bs : List Nat) : ∀ l ∈ optBlock (' ' ::
 theorem refHeadLines_cons (i : Nat) (r : RRef) (ℓ : RefLayout) :
     ∃ (c0 : Str) (conts : List Str), refHeadLines i r ℓ = (padRight c!"REFERENCE" 12 ++ c0) :: conts.map (spaces 12 ++ ·) := by
   unfold refHeadLines; split
-  · exact ⟨ofNat (i + 1) ++ c!"  ", [], by simp [List.append_assoc]⟩
+  · exact ⟨refNumber i r ++ c!"  ", [], by simp [List.append_assoc]⟩
   · rw [block_eq]; exact ⟨_, _, rfl⟩
 
 theorem blank_refLines_tail (i : Nat) (r : RRef) (ℓ : RefLayout) : ∀ l ∈ (refLines i r ℓ).drop 1, Blank l := by
